@@ -130,8 +130,10 @@ def encode_fn(lib, cls, node, it, tn):
     gen = C_node.generated_suffix
     res_as_arg = bool(fmt.F_string_result_as_arg)
     rtm = ast.typemap
+    rsuf = getattr(C_node, "result_suffix", None)
     head = [kind, int(f_fun), int(c_fun), it(gen), int(res_as_arg), it(rtm.sgroup if rtm else None),
-            it(C_node.ast.get_indirect_stmt()), it(ast.metaattrs["deref"]), it(ast.attrs["owner"])]
+            it(C_node.ast.get_indirect_stmt()), it(ast.metaattrs["deref"]), it(ast.attrs["owner"]),
+            it(gen if rsuf is None else rsuf)]
     params = []
     names = {}
     f_args = ast.params
